@@ -109,6 +109,8 @@ type Session struct {
 	Dirty   bool // a command was rejected while queueing
 	Watches map[watchKey]uint64
 	WatchEx map[watchKey]bool // key existed when watched
+	// LastAbort explains the last EXEC abort when every changed watched key was missing both at WATCH and at EXEC
+	LastAbort string
 }
 
 func NewSession() *Session {
